@@ -33,6 +33,11 @@ def instances(tier):
     for n in range(1, nmax + 1):
         for form in ("list", "array"):
             out.append(dict(id="bisect-n%d-%s" % (n, form), kind="bisect", n=n, form=form, budget=dict(wall_s=60, max_paths=500)))
+    # the SAME container is searched, refilled in place with other strictly increasing values of the same length, and searched again
+    # (a re-used knot buffer): the answer is for the current contents
+    for n in ((3, 5) if tier == "quick" else (3, 4, 5, 6)):
+        for form in ("list", "array"):
+            out.append(dict(id="bisect-n%d-%s-refilled-in-place" % (n, form), kind="bisect", n=n, form=form, refill=True, budget=dict(wall_s=60, max_paths=1500)))
     vmax = 4 if tier == "quick" else 7
     mmax = 2 if tier == "quick" else 3
     for n in range(1, vmax + 1):
@@ -81,6 +86,16 @@ def scenario(c, inst):
         if kind == "bisect":
             q = c.real("q")
             arr = list(elems) if inst["form"] == "list" else c.array(elems)
+            if inst.get("refill"):
+                # earlier use of the container: other contents, another query
+                first = [c.real("b%d" % i) for i in range(n)]
+                for i in range(n - 1):
+                    c.assume(first[i] < first[i + 1])
+                for i in range(n):
+                    arr[i] = first[i]
+                run_bounded(8.0, deutil.search_bisection, arr, c.real("q_first"))
+                for i in range(n):
+                    arr[i] = elems[i]
             st, r = run_bounded(8.0, deutil.search_bisection, arr, q)
             if st != "ok":
                 c.check("bisect.returns", False, info=repr(r) if st == "exc" else "does not terminate")
